@@ -275,6 +275,28 @@ func propC18(w *World, r *Report) {
 				pos = w.InstrPos(late[0])
 			}
 			r.Check(len(late) == 0, "W1", "reader: no use of the buffer after it was sent to the writer", pos, fmt.Sprintf("%d later use(s)", len(late)))
+			// every frame read in full is forwarded: inside the frame loop nothing but the read error decides
+			var extra []string
+			for _, g := range e.guardsOf(s.Block()) {
+				if !(frame.Block() == g.If.Block() || frame.Block().Dominates(g.If.Block())) {
+					continue // decided before the buffer was taken (outside the loop body)
+				}
+				if gs := g.String(); (strings.HasPrefix(gs, "eq(") || strings.HasPrefix(gs, "ne(")) && strings.Contains(gs, "#1(io.Read") && strings.Contains(gs, "nil") {
+					continue
+				}
+				extra = append(extra, g.String())
+			}
+			r.Check(len(extra) == 0, "W2", "reader: every frame that was read in full is forwarded to the writer (only a read error ends the loop)", w.InstrPos(s), "other conditions on the forwarding path: "+strings.Join(extra, " ; "))
+			for _, rf := range *frame.Referrers() {
+				if c, ok := rf.(*ssa.Call); ok && calleeName(c) == "io.ReadFull" {
+					if from := successEdge(c.Block()); from != nil {
+						by, _ := canBypass(from, s.Block(), frame.Block())
+						r.Check(!by, "W2", "reader: no path from a completed read comes round to the next buffer without forwarding the frame", w.InstrPos(c), "")
+					} else {
+						r.Unknown("W2", "reader: no path from a completed read comes round to the next buffer without forwarding the frame", w.InstrPos(c), "the read is not followed by an error check")
+					}
+				}
+			}
 		default:
 			r.Fail("W1", "reader: send on an unknown channel", w.InstrPos(s), "", "")
 		}
@@ -436,6 +458,42 @@ func propC18(w *World, r *Report) {
 		if okFlag != nil {
 			gs := e.guardsOf(wcalls[0].Block())
 			r.Check(hasGuard(gs, e.termOf(okFlag).String()), "W2", "writer: frames are written only when the receive succeeded (channel not closed)", w.InstrPos(wcalls[0]), strings.Join(guardStrings(gs), " ; "))
+			var extra []string
+			for _, g := range gs {
+				if g.String() == e.termOf(okFlag).String() {
+					continue
+				}
+				// only what is decided after the buffer was received
+				if in, ok := wframe.(ssa.Instruction); ok && (in.Block() == g.If.Block() || in.Block().Dominates(g.If.Block())) {
+					extra = append(extra, g.String())
+				}
+			}
+			r.Check(len(extra) == 0, "W2", "writer: every received frame is written (nothing but the closed channel skips the write)", w.InstrPos(wcalls[0]), "other conditions: "+strings.Join(extra, " ; "))
+			// path form: from the "channel still open" edge the write is passed before the buffer is handed back
+			if len(wsends) == 1 {
+				nEval := 0
+				for _, b := range wr.Blocks {
+					iff, ok := b.Instrs[len(b.Instrs)-1].(*ssa.If)
+					if !ok {
+						continue
+					}
+					open := -1
+					if iff.Cond == okFlag {
+						open = 0
+					} else if u, isU := iff.Cond.(*ssa.UnOp); isU && u.Op == token.NOT && u.X == okFlag {
+						open = 1
+					}
+					if open < 0 {
+						continue
+					}
+					nEval++
+					by, _ := canBypass(b.Succs[open], wcalls[0].Block(), wsends[0].Block())
+					r.Check(!by, "W2", "writer: no path from a successful receive reaches the hand-back (or leaves) without the frame write", w.InstrPos(iff), "")
+				}
+				if nEval == 0 {
+					r.Unknown("W2", "writer: no path from a successful receive reaches the hand-back (or leaves) without the frame write", w.Pos(wr.Pos()), "no branch on the receive's ok flag found")
+				}
+			}
 		}
 	}
 	// W4: closed edge -> builder.Close before return
